@@ -123,7 +123,19 @@ func refDegree(coeffs []*big.Int) int {
 
 func (e *env[S, G]) PolyEval(t *rapid.T) {
 	const test = "PolyEval"
-	coeffs, pc := genPoly(t, "c", e.p, 1, 9)
+	// 1..9 coefficients, rarely up to 65: Derivative multiplies coefficient i by the native integer
+	// i through a double-and-add loop (ScalarMulNative), 16/17, 32/33 and 64/65 coefficients put the
+	// largest multiplier just below / at a new bit length. The lifted Eval costs one group scalar
+	// multiplication per coefficient, which bounds the tail's weight.
+	maxLen := 9
+	if rapid.IntRange(1, 40).Draw(t, "longPoly") == 40 {
+		maxLen = rapid.SampledFrom([]int{10, 16, 17, 32, 33, 64, 65}).Draw(t, "maxLen")
+	}
+	minLen := 1
+	if maxLen > 9 {
+		minLen = maxLen - 1
+	}
+	coeffs, pc := genPoly(t, "c", e.p, minLen, maxLen)
 	x, xc := genScalar(t, "x", e.p)
 	ring, err := polynomials.NewPolynomialRing(e.field)
 	if err != nil {
@@ -149,6 +161,17 @@ func (e *env[S, G]) PolyEval(t *rapid.T) {
 		wantD := refmat.PolyDerivEval(coeffs, order, x, e.p)
 		if got := e.bi(d.Eval(e.fe(x))); got.Cmp(wantD) != 0 {
 			t.Fatalf("Derivative^%d then Eval: %s: got %x want %x", order, in, got, wantD)
+		}
+	}
+	// occasionally a deeper derivative (orders 4 .. len+1; from order len on it is the zero polynomial)
+	if rapid.IntRange(0, 7).Draw(t, "deep") == 0 {
+		upTo := rapid.IntRange(4, len(coeffs)+4).Draw(t, "deepOrder")
+		for order := 4; order <= upTo; order++ {
+			d = d.Derivative()
+		}
+		wantD := refmat.PolyDerivEval(coeffs, upTo, x, e.p)
+		if got := e.bi(d.Eval(e.fe(x))); got.Cmp(wantD) != 0 {
+			t.Fatalf("Derivative^%d then Eval: %s: got %x want %x", upTo, in, got, wantD)
 		}
 	}
 	// in the exponent: lift with base point k·G, evaluate, compare with the lift of k·p(x)
